@@ -19,11 +19,16 @@ Line-protocol driver for the C09 model (name → id assignment), see harness/int
   bcrace <nsBucket> <ns> <x>                  (lookup of an unknown name stopped after getSnapshot ‖ flush persisting x; then GenMetricID(ns, x))
   scrace <metricId> <fb> <fc>                 (reader's GetSchema stopped before cache.Add ‖ writer fb ‖ flush; then writer fc)
   swindow field <metricId> <f>                (metadata flush; GenFieldID runs between the schema commit and MarkPersisted)
+  bload <hex>                                 (the caller's reused block buffer now holds these bytes)
+  bmetric <nsOff> <nsLen> <nameOff> <nameLen> (GenMetricID with two views into the buffer)
+  bfield <metricId> <off> <len> | btagkey <metricId> <off> <len> | btagvalue <tagKeyId> <off> <len>
+  bseries <shard> <metricId> <tagset> (<kOff> <kLen> <vOff> <vLen>)*   (GenSeriesID of a row that is a view of the buffer)
 
 The code variant (`Cfg`) and the default limits are the ones derived from the regenerated facts.
 -/
 import LinVerif.Util.Proto
 import LinVerif.Model.IdAssignCfg
+import LinVerif.Model.IdAssignView
 
 namespace LinVerif.Driver.C09
 open LinVerif LinVerif.IdAssign
@@ -232,6 +237,61 @@ def step (nd : Node) (ws : List String) : Node × String :=
     | _, _ => bad
   | _ => bad
 
-def main (_args : List String) : IO Unit := Proto.runLoop ({} : Node) step
+def tagViews : List Nat → Option (List (Buf.View × Buf.View))
+  | [] => some []
+  | ko :: kl :: vo :: vl :: rest => (tagViews rest).map (fun r => (({ off := ko, len := kl }, { off := vo, len := vl }) : Buf.View × Buf.View) :: r)
+  | _ => none
+
+/-- the buffer operations: parsed into a `BOp` and run by `bstep` (Model/IdAssignView.lean) -/
+def parseB (ws : List String) : Option BOp :=
+  match ws with
+  | ["bload", hex] => (Buf.hexBytes hex.toList).map BOp.load
+  | ["bmetric", a, b, c, d] =>
+    match a.toNat?, b.toNat?, c.toNat?, d.toNat? with
+    | some a, some b, some c, some d => some (.metric { off := a, len := b } { off := c, len := d })
+    | _, _, _, _ => none
+  | ["bfield", m, o, l] =>
+    match m.toNat?, o.toNat?, l.toNat? with
+    | some m, some o, some l => some (.field m { off := o, len := l })
+    | _, _, _ => none
+  | ["btagkey", m, o, l] =>
+    match m.toNat?, o.toNat?, l.toNat? with
+    | some m, some o, some l => some (.tagKey m { off := o, len := l })
+    | _, _, _ => none
+  | ["btagvalue", tk, o, l] =>
+    match tk.toNat?, o.toNat?, l.toNat? with
+    | some tk, some o, some l => some (.tagValue tk { off := o, len := l })
+    | _, _, _ => none
+  | "bseries" :: sh :: m :: ts :: rest =>
+    match sh.toNat?, m.toNat?, ts.toNat?, (rest.mapM String.toNat?).bind tagViews with
+    | some sh, some m, some ts, some tags => some (.series sh m ts tags)
+    | _, _, _, _ => none
+  | _ => none
+
+def isB (ws : List String) : Bool :=
+  match ws with
+  | w :: _ => w == "bload" || w == "bmetric" || w == "bfield" || w == "btagkey" || w == "btagvalue" || w == "bseries"
+  | [] => false
+
+def stepB (st : BNode) (ws : List String) : BNode × String :=
+  if isB ws then
+    match parseB ws with
+    | none => (st, "bad-op")
+    | some (.series sh m ts tags) =>
+      if sh < st.nd.nShards then
+        match bstep cfg st (.series sh m ts tags) with
+        | some (st', some o) => (st', showOut o)
+        | _ => (st, "bad-op")
+      else (st, "bad-op")
+    | some bop =>
+      match bstep cfg st bop with
+      | some (st', some o) => (st', showOut o)
+      | some (st', none) => (st', "ok")
+      | none => (st, "bad-op")
+  else
+    let r := step st.nd ws
+    ({ st with nd := r.1 }, r.2)
+
+def main (_args : List String) : IO Unit := Proto.runLoop ({} : BNode) stepB
 
 end LinVerif.Driver.C09
